@@ -186,4 +186,20 @@ theorem key_injective {r r' : SR} (hr : r.WF) (hr' : r'.WF) (h : r.key = r'.key)
   simp only [SR.mk.injEq]
   exact ⟨rtype_str_inj e6.2, e4.2, e3.2, e6.1, e2.2⟩
 
+/-- **fullKey_injective.** The complete cache key - resource part plus private-key-provider hash - determines both
+    the resource and the provider configuration: a proxy never hits an entry generated for another provider
+    configuration, or for another resource. -/
+theorem fullKey_injective {r r' : SR} {h h' : Str} (hr : r.WF) (hr' : r'.WF) (hh : '/' ∉ h) (hh' : '/' ∉ h')
+    (hk : r.fullKey h = r'.fullKey h') : r = r' ∧ h = h' := by
+  -- the key is `body ++ "/"`; the full key is `body ++ "/" ++ hash`
+  let body : SR → Str := fun r =>
+    r.resourceName ++ '/' :: r.rtype.str ++ '/' :: r.rtype.kindStr ++ '/' :: r.name ++ '/' :: r.ns ++ '/' :: r.cluster
+  have hkey : ∀ x : SR, x.key = body x ++ ['/'] := fun _ => rfl
+  have hfull : ∀ (x : SR) (y : Str), x.fullKey y = body x ++ '/' :: y := by
+    intro x y
+    simp [SR.fullKey, hkey]
+  rw [hfull, hfull] at hk
+  have e1 := append_sep_inj '/' hh hh' hk
+  exact ⟨key_injective hr hr' (by rw [hkey, hkey, e1.1]), e1.2⟩
+
 end IstioModel.C11
